@@ -307,8 +307,8 @@ def accounting(ctx: Ctx, r: Roles, rule: str):
     for n in ast.walk(r.loop):
         if isinstance(n, ast.Compare) and len(n.ops) == 1 and isinstance(n.ops[0], ast.Eq):
             names = [dotted(n.left), dotted(n.comparators[0])]
-            if any(x and "total" in x for x in names):
-                counter = next((x for x in names if x and "total" not in x), None)
+            if all(names) and any("total" in x for x in names):
+                counter = next((x for x in names if "total" not in x), counter)
     if counter is None:
         ctx.note("no byte counter compared with a total length found (iteration ends by exhaustion only)")
         return
@@ -485,6 +485,16 @@ def sources_for(stream: bytes, level: int):
         for rs in ([None, 4] if level == 0 else [None, 1, 4, 9]):
             kw = {} if rs is None else {"buffer_read_size_bytes": rs}
             out.append((f"socket(frag#{i},recv={rs})", (lambda fr=fr: socket_source(fr)), kw))
+    # a file handle the caller has already read from (peeked at the first header / read it to the end before): the library
+    # frames the file, not the rest of the handle
+    if n >= 6:
+        out.append(("file(handle at byte 6, read=None)", lambda: file_source(stream, 6), {}))
+        out.append(("file(handle at byte 2, read=7)", lambda: file_source(stream, 2), {"buffer_read_size_bytes": 7}))
+        out.append(("file(handle at end, read=None)", lambda: file_source(stream, n), {}))
+    # the progress display is cosmetic: same packets with it switched on, for every kind of source
+    out.append(("bytes, show_progress", lambda: stream, {"show_progress": True}))
+    out.append(("file(read=7), show_progress", lambda: file_source(stream), {"buffer_read_size_bytes": 7, "show_progress": True}))
+    out.append(("socket(whole), show_progress", lambda: socket_source([stream]), {"show_progress": True}))
     # a connection that stays open after the last byte: every complete packet must already have been yielded
     for i, fr in enumerate(frag_sets[:4]):
         out.append((f"live-socket(frag#{i})", (lambda fr=fr: socket_source(fr, stays_open=True)), {}))
